@@ -218,7 +218,7 @@ def run_history(rec, hub, D, seed, shard, nshards, tier, h, length):
     for step in range(length):
         i = rng.randrange(len(pool))
         ds, m = pool[i]
-        kind = rng.choice(["append", "prepend", "insert", "drop", "replace", "expand", "subset", "copy", "binop", "array", "getitem_tuple", "clash", "init_dup", "subset_none"])
+        kind = rng.choice(["append", "prepend", "insert", "drop", "replace", "expand", "subset", "copy", "binop", "array", "getitem_tuple", "clash", "init_dup", "subset_none", "edit_items"])
         inplace = rng.random() < 0.5
         absent = [l for l in letters if l not in m.letters]
         present = list(m.letters)
@@ -321,10 +321,43 @@ def run_history(rec, hub, D, seed, shard, nshards, tier, h, length):
                 elif which == "replace_other" and len(present) > 1:
                     other = rng.choice([p for p in present if p != l])
                     ds.replace(other, nd, inplace=inplace)
+            elif kind == "edit_items":
+                # the user's own dimension (in no array) gains an item after a set holding it was looked at: size, shape, total size
+                # and the item list of that set go on agreeing with each other
+                dp = fd.Dimension(letter="z", name="zeta of the user", items=[1, 2, 3])
+                sp = fd.DimensionSet(dim_list=[D[x] for x in present[:2]] + [dp])
+                _ = (sp.shape, sp.total_size, sp.size("z"))
+                dp.items.append(4)
+                if rng.random() < 0.5:
+                    dp.items.extend([5, 6])
+                desc = ("edit_items", len(dp.items))
+                rec.event("dimset-lookups", sig=f"edit-items|{len(dp.items)}", cls="lookups|after the items of a held dimension were edited")
+                n_ = len(sp["z"].items)
+                tot_ = 1
+                for l_ in sp.letters:
+                    tot_ *= len(sp[l_].items)
+                if not (sp.size("z") == n_ == sp.shape[-1] == sp["z"].len) or sp.total_size != tot_:
+                    rec.violation("dimset-lookups", "lookups:size-shape-and-items-disagree-after-items-were-edited", {"items": n_, "size": sp.size("z"), "shape": list(sp.shape), "total_size": sp.total_size, "expected_total": tot_})
             elif kind == "init_dup" and present:
                 l = rng.choice(present)
                 desc = ("init_dup", l)
-                fd.DimensionSet(dim_list=[D[x] for x in present] + [twins[l]])
+                members = [D[x] for x in present] + [twins[l]]
+                form = rng.randrange(4)
+                if form == 0:
+                    fd.DimensionSet(dim_list=members)
+                else:
+                    rec.event("dimset-model", sig=f"init-dup|form={form}", cls=f"init|dup|{['list', 'generator', 'dictionaries', 'dictionaries with the alias spelling'][form]}")
+                    try:
+                        if form == 1:
+                            made = fd.DimensionSet(dim_list=(q for q in members))  # a generator
+                        elif form == 2:
+                            made = fd.DimensionSet(dim_list=[q.model_dump() for q in members])  # plain dictionaries, as after model_dump / from a json file
+                        else:
+                            made = fd.DimensionSet.model_validate({"dim_list": [{("dim_letter" if k_ == "letter" else k_): v_ for k_, v_ in q.model_dump().items()} for q in members]})
+                    except Exception:
+                        made = None
+                    if made is not None:
+                        rec.violation("dimset-model", "constructor-accepted-duplicate-letters", {"form": ["list", "generator", "dictionaries", "dictionaries with the alias spelling"][form], "letters": list(made.letters)})
         except Exception as e:
             desc = (desc, "raised", type(e).__name__)
         steps.append(desc)
